@@ -89,3 +89,21 @@ def _c13_fstring(v):
     d = v.get('detail') or {}
     return v['kind'] == 'error_node_unreported' and d.get('fstring') is True and d.get('version_ge_39') is True \
         and d.get('own_first_line_reported') is True
+
+
+# ---------------------------------------------------------------------------
+# C05
+
+ALWAYS_BREAK = {';', 'import', 'class', 'def', 'try', 'except', 'finally', 'while', 'with', 'return', 'continue',
+                'break', 'del', 'pass', 'global', 'assert', 'nonlocal'}
+
+
+@classifier('c05_missing_newline_before_always_break_keyword')
+def _c05_nl(v):
+    """F-C05-1: the leaf after the newline-less simple_stmt is an always-break keyword and the line
+    break before it sits in its prefix (no NEWLINE token was produced although a new line began:
+    only possible while a bracket/f-string was open, which is when that keyword resets the
+    bracket state and emits DEDENT directly)."""
+    d = v.get('detail') or {}
+    return v['kind'] == 'missing_newline_mid_file' and d.get('next_value') in ALWAYS_BREAK \
+        and d.get('next_prefix_has_newline') is True
